@@ -430,6 +430,52 @@ Section P.
       exists (e_key e), v. auto.
   Qed.
 
+
+
+  (* which member wins: the key of the entry the probe loop selects on the canonical table *)
+  Definition owner_key (r : ring) (k : key) : option key :=
+    match lkeys r with
+    | [] => None
+    | _ :: _ => pick_key (r_probes V r) (canon (r_replicas V r) (lkeys r)) k
+    end.
+
+  Lemma lookup_by_owner : forall r k, Inv r ->
+    match owner_key r k with
+    | None => snd (lookup r k) = LNone /\ forall x, live r x = None
+    | Some ok => exists v, live r ok = Some v /\ snd (lookup r k) = LSome v
+    end.
+  Proof.
+    intros r k I. unfold owner_key.
+    rewrite (lookup_ideal r (lkeys r) k I (lkeys_NoDup r I) (lkeys_In r)).
+    unfold ideal_lookup. destruct (lkeys r) as [|k0 ks] eqn:E.
+    - split; auto. intro x. destruct (live r x) eqn:L; auto.
+      exfalso. assert (In x (lkeys r)) as H by (apply lkeys_In; congruence). rewrite E in H. contradiction.
+    - rewrite <- E.
+      assert (canon (r_replicas V r) (lkeys r) <> []) as Hne.
+      { apply canon_nonempty. apply I. rewrite E. discriminate. }
+      destruct (pick_key_ok (r_probes V r) _ k Hne) as [e [He ->]].
+      apply canon_In in He. apply lkeys_In in He.
+      destruct (live r (e_key e)) as [v|] eqn:L; [|congruence].
+      exists v. auto.
+  Qed.
+
+  (* Len() counts the live members *)
+  Lemma filter_partition_length : forall (A : Type) (f : A -> bool) l,
+    (length (filter f l) + length (filter (fun x => negb (f x)) l) = length l)%nat.
+  Proof. induction l as [|x l IH]; simpl; auto. destruct (f x); simpl; lia. Qed.
+
+  Lemma len_lkeys : forall r, Inv r -> len V r = Z.of_nat (length (lkeys r)).
+  Proof.
+    intros r I. destruct I as [nd ndd inc perm srt HR]. unfold Model.len, lkeys.
+    pose proof (filter_partition_length _ (fun k => negb (smem k (r_deleted V r))) (keys (r_members V r))) as HP.
+    assert (length (filter (fun x => negb (negb (smem x (r_deleted V r)))) (keys (r_members V r)))
+            = length (r_deleted V r)) as HD.
+    { apply Permutation_length. apply NoDup_Permutation; auto using NoDup_filter'.
+      intro x. rewrite filter_In, negb_involutive, smem_In. split; [tauto|]. intro H. split; auto. }
+    assert (length (r_members V r) = length (keys (r_members V r))) as EL by (unfold keys; rewrite map_length; auto).
+    lia.
+  Qed.
+
   (* ---------- steps and histories ---------- *)
   Definition fstep (f : key -> option V) (o : op V) (k : key) : option V :=
     match o with
